@@ -177,4 +177,18 @@ CHECKS = {
              'shutdown() and run(); benign stimuli leave is_ready() True; afterwards the error is never replaced, the '
              'circuit stays not ready and cannot be restarted.',
         note='A calc_output error is delivered when the simulator task next runs and therefore loses against sources of the same driver step.'),
+    'C08': dict(
+        level='fault_enumeration', design_ref='DESIGN.md 4/C08',
+        technique=PBT + ' with generated fault injection (fault site x termination cause x instant x entry point); history invariants over the start/stop/stop_async call log (instance-level instrumentation) and a census of pending tasks and timer handles',
+        text='Generated circuits of probe blocks with scripted failures (start, restore, init_async, init_regular, '
+             'init_from_value, event handler, main task, stop, stop_async raising or exceeding stop_timeout) and library '
+             'blocks owning tasks or timers (Timer, Repeat, ValuePoll, OutputAsync, OutputFunc, TimeDate/cron, InputExp, '
+             'failing FuncBlock), terminated by shutdown(), a returning/failing supporting task, SIGTERM, Event.shutdown(), '
+             'Event.abort(), abort(), abort before start or the fault itself, at instants during async initialisation, '
+             'normal operation, and again during asynchronous clean-up, through run() and run_forever(). Checked: stop() '
+             'exactly once on exactly the started blocks, stop before stop_async, all asynchronous clean-up finished (within '
+             'the largest stop_timeout) before synchronous blocks are stopped, no pending task or timer handle and no '
+             'activity after the end, stop_data processed last, terminal state (no restart, no new block, no connect, no '
+             'storage change, not ready).',
+        note='Which blocks count as started is taken from the instrumentation (start() returned).'),
 }
